@@ -199,7 +199,7 @@ Definition die (env : envt) (o : Z) (st : state) : state :=
 Definition dying (env : envt) (gc : bool) (st : state) (o : Z) : bool :=
   negb (memz o (st_held st)) && (gc || negb (cyclic env o)).
 
-Definition flush (env : envt) (gc : bool) (st : state) : state * list event :=
+Definition reap (env : envt) (gc : bool) (st : state) : state * list event :=
   let ds := filter (dying env gc st) (st_pend st) in
   let st1 := set_pend st (filter (fun o => negb (dying env gc st o)) (st_pend st)) in
   (fold_left (fun s o => die env o s) ds st1, map EvDied ds).
@@ -215,7 +215,7 @@ Definition kill (env : envt) (o : Z) (st : state) : state * list event * status 
   if memz o (st_reg st) then
     let st1 := set_pend (set_reg st (filter (fun x => negb (x =? o)) (st_reg st)))
                         (insert_sorted o (st_pend st)) in
-    let '(st2, evs) := flush env false st1 in
+    let '(st2, evs) := reap env false st1 in
     (st2, EvKill o 0 :: evs, Done)
   else (st, [EvKill o (-2)], Done).
 
@@ -250,7 +250,7 @@ Definition call_callback (run : list op -> state -> state * list event * status)
     match s2 with
     | Done =>
         (* the frame is gone: what it alone kept alive dies here *)
-        let '(st3, died) := flush env false (set_held st2 (st_held st)) in
+        let '(st3, died) := reap env false (set_held st2 (st_held st)) in
         (st3, EvCall (h_key h) (h_cb h) (argv_of h args) body (Some (sc_ret sc)) :: died, Done,
          truthy (sc_ret sc))
     | Raised c =>
@@ -287,7 +287,7 @@ Fixpoint run_op (fuel : nat) (env : envt) (o : op) (st : state) {struct fuel}
   | ODisconnect s n cb ua ws us => disconnect s n cb ua ws us st
   | ODisconnectKey s n k => (disconnect_by_key s n k st, [EvDk s n k 0], Done)
   | OKill x => kill env x st
-  | OGc => let '(st1, evs) := flush env true st in (st1, EvGc :: evs, Done)
+  | OGc => let '(st1, evs) := reap env true st in (st1, EvGc :: evs, Done)
   | OEmit s n args =>
       match fuel with
       | O => (st, [EvEmit s n args [] (-3)], Raised (-3))
@@ -306,7 +306,7 @@ Definition top_step (fuel : nat) (env : envt) (o : op) (st : state) : state * li
   let '(st1, e1, s1) := run_op fuel env o st in
   match s1 with
   | Done => (st1, e1)
-  | Raised _ => let '(st2, e2) := flush env false (set_held st1 []) in (st2, e1 ++ e2)
+  | Raised _ => let '(st2, e2) := reap env false (set_held st1 []) in (st2, e1 ++ e2)
   end.
 
 Fixpoint run_top (fuel : nat) (env : envt) (ops : list op) (st : state) : state * list event :=
